@@ -16,20 +16,48 @@ def q(s):
     return '"%s"' % s
 
 
-def plan_C01(tier, seed):
-    fams = [("F1", 2)] if tier == "quick" else [("F1", 3)]
-    jobs = [tlc("c01_%s" % f, "MC_C01", {"Family": q(f), "K": k}, ["Refines", "Emit"]) for f, k in fams]
+EVAL_INV = ["Wellformed", "Refines", "Emit"]
+EVAL_ASSUME = ["TLC", "pools.py tables (python fractions / re)", "encoding/json decoding of instances",
+               "Go regexp on the portable pattern subset"]
+EVAL_RULE = ("universes enumerated exhaustively by TLC from the MC_Eval families %s; a case is one schema document "
+             "(universe) with its L0 verdict vector over the family's instance pool; non-trivial = the vector contains "
+             "both valid and invalid instances; distinct by document text")
+
+
+def eval_jobs(prefix, fams, dr, workers=4):
+    return [tlc("%s_%s_k%d" % (prefix, f, k), "MC_Eval", {"Family": q(f), "K": k, "Dr": q(dr)}, EVAL_INV, workers=workers)
+            for f, k in fams]
+
+
+def eval_plan(prefix, fams2020, famsd7, workers=4, parallel=4):
+    jobs = eval_jobs(prefix, fams2020, "2020", workers) + eval_jobs(prefix, famsd7, "d7", workers)
     return dict(
-        tlc=jobs, parallel=4,
-        replay=[dict(name="c01_replay", family="eval", inputs=[j["name"] for j in jobs])],
-        rule="schemas enumerated by TLC from MC_C01 families; a case is one schema with its verdict vector over the "
-             "family's instance pool; non-trivial = the vector contains both valid and invalid; distinct by schema text",
-        exhaustive=True,
-        assumptions=["TLC", "pools.py tables", "encoding/json decoding of instances", "Go regexp on the portable subset"],
-    )
+        tlc=jobs, parallel=parallel,
+        replay=[dict(name=prefix + "_replay", family="eval", inputs=[j["name"] for j in jobs])],
+        rule=EVAL_RULE % ", ".join(f for f, _ in fams2020 + famsd7),
+        exhaustive=True, assumptions=EVAL_ASSUME)
 
 
-PLANS = {"C01": plan_C01}
+def plan_C01(tier, seed):
+    if tier == "quick":
+        return eval_plan("c01", [("F1", 2), ("F2", 2), ("F3", 2), ("F4", 1), ("F5", 1), ("U1", 1), ("U2", 1)], [])
+    return eval_plan("c01", [("F1", 3), ("F2", 3), ("F3", 3), ("F4", 2), ("F5", 1), ("U1", 1), ("U2", 1)], [],
+                     workers=5, parallel=3)
+
+
+def plan_C02(tier, seed):
+    if tier == "quick":
+        return eval_plan("c02", [], [("G1", 2), ("G2", 2), ("G3", 1), ("G4", 1), ("G5", 1)])
+    return eval_plan("c02", [], [("G1", 3), ("G2", 3), ("G3", 1), ("G4", 1), ("G5", 1)], workers=5, parallel=3)
+
+
+def plan_C07(tier, seed):
+    if tier == "quick":
+        return eval_plan("c07", [("U1", 1), ("U2", 1)], [])
+    return eval_plan("c07", [("U1", 2), ("U2", 2)], [], workers=8, parallel=2)
+
+
+PLANS = {"C01": plan_C01, "C02": plan_C02, "C07": plan_C07}
 
 
 def plan(prop, tier, seed):
